@@ -411,3 +411,21 @@ Example ex_round_then_trunc_exact_instance :
   let X := 1000 * 500000000000000000 * 999999999999999999 in
   0 <= X /\ X mod PREC2 < PREC2 - HALF /\ X / PREC2 = 499 /\ dtrunc (chop_round X) = 499.
 Proof. vm_compute. repeat split; discriminate. Qed.
+
+(* instances of the hypotheses of the theorems above *)
+Example ex_mul_trunc_floor_hyp :      (* slash 0.1% of 123456789 *)
+  0 <= 123456789 /\ 0 <= 1000000000000000
+  /\ mul_trunc 123456789 1000000000000000 = 123456 /\ (123456789 * 1000000000000000) / PREC = 123456.
+Proof. vm_compute. repeat split; discriminate. Qed.
+Example ex_mul_trunc_bounds_hyp :
+  0 <= 1001 /\ 0 <= 999999999999999999 <= ONE /\ mul_trunc 1001 999999999999999999 = 1000.
+Proof. vm_compute. repeat split; discriminate. Qed.
+Example ex_mul_trunc_lt_hyp :
+  0 < 1 /\ 0 <= 999999999999999999 < ONE /\ mul_trunc 1 999999999999999999 < 1.
+Proof. vm_compute. repeat split; discriminate. Qed.
+Example ex_dmul_discount_bounds_hyp :  (* 0.000000000000000003 * 0.5 rounds half-even to ...02 *)
+  0 <= 3 /\ 0 <= HALF <= ONE /\ dmul 3 HALF = 2 /\ dmul 5 HALF = 2 /\ dmul 7 HALF = 4.
+Proof. vm_compute. repeat split; discriminate. Qed.
+(* without 0 <= a the discount bound fails (rounding is symmetric around 0) *)
+Example dmul_discount_bounds_neg_refuted : ~ (0 <= dmul (-3) HALF <= -3) /\ dmul (-3) HALF = -2.
+Proof. vm_compute. split; [intros [H _]; apply H; reflexivity | reflexivity]. Qed.
